@@ -726,9 +726,16 @@ func (w *WAL) rotateSegmentLocked(indexStart uint64) error {
 		newState.segments = newState.segments.Set(tail.BaseIndex, *tail)
 
 		post, err := w.createNextSegment(newState)
-		return nil, post, err
+		if err != nil {
+			return nil, nil, err
+		}
+		// Only count the rotation once it has been committed (postCommit runs
+		// right after the meta commit succeeded).
+		return nil, func() error {
+			w.metrics.IncrementCounter("segment_rotations", 1)
+			return post()
+		}, nil
 	}
-	w.metrics.IncrementCounter("segment_rotations", 1)
 	return w.mutateStateLocked(txn)
 }
 
@@ -886,7 +893,16 @@ func (w *WAL) truncateHeadLocked(newMin uint64) error {
 			}
 			postCommit = pc
 		}
-		w.metrics.IncrementCounter("head_truncations", nTruncated)
+		// Only count the entries once the truncation has been committed
+		// (postCommit runs right after the meta commit succeeded).
+		createTail := postCommit
+		postCommit = func() error {
+			w.metrics.IncrementCounter("head_truncations", nTruncated)
+			if createTail != nil {
+				return createTail()
+			}
+			return nil
+		}
 
 		// Return a finalizer that will be called when all readers are done with the
 		// segments in the current state to close and delete old segments.
@@ -958,7 +974,13 @@ func (w *WAL) truncateTailLocked(newMax uint64) error {
 		if err != nil {
 			return nil, nil, err
 		}
-		w.metrics.IncrementCounter("tail_truncations", nTruncated)
+		// Only count the entries once the truncation has been committed
+		// (postCommit runs right after the meta commit succeeded).
+		createTail := pc
+		pc = func() error {
+			w.metrics.IncrementCounter("tail_truncations", nTruncated)
+			return createTail()
+		}
 
 		// Return a finalizer that will be called when all readers are done with the
 		// segments in the current state to close and delete old segments.
